@@ -126,6 +126,7 @@ def handle (op : String) (j : Json) : Except String Json := do
                       ("fresh", Json.bool (src.maps.all freshLabels)),
                       ("list_default", Json.bool (tgtHasListDefault tables c)),
                       ("static_ok", Json.bool (staticOk tables c)),
+                      ("src_ok", Json.bool (srcOk tables c src)),
                       ("shift_default", optToJson intToJson c.shiftDefault),
                       ("has_shift", Json.bool c.shiftParam.isSome)]))
   | "c08.cast" =>
